@@ -68,3 +68,22 @@ def make_clusters(rng, rows, n_clusters, outlier_prob_col=None):
             row["outlier_prob"] = outlier_prob_col[assign[r["mutation_id"]] % len(outlier_prob_col)]
         out.append(row)
     return out, assign
+
+
+def branching_table(rng, n_mut, n_samples=2, depth=3000):
+    """Input table with a trunk and several sibling subclones of different prevalence per sample (major=minor=1,
+    normal 2, no optional columns): posterior trees have many sibling clones, so the same pairs of likelihood vectors get
+    convolved in either order -- the situation in which order-insensitive caches return bitwise different values."""
+    samples = ["S%d" % (i + 1) for i in range(n_samples)]
+    fr = [[0.45] * n_samples]
+    k = n_mut - 1
+    for i in range(k):
+        w = rng.dirichlet(np.ones(k), size=n_samples)[:, i] * 0.8
+        fr.append([float(np.round(0.45 * x + 0.02, 3)) for x in w])
+    rows = []
+    for i, f in enumerate(fr):
+        for s, fs in zip(samples, f):
+            alt = int(round(depth * fs))
+            rows.append({"mutation_id": "m%d" % i, "sample_id": s, "ref_counts": depth - alt, "alt_counts": alt,
+                         "major_cn": 1, "minor_cn": 1, "normal_cn": 2})
+    return rows, samples
